@@ -50,6 +50,7 @@ type Data struct {
 	FromLibrary bool `json:"from_library,omitempty"`
 	offOverride *int
 	eofOverride bool
+	altText     *string // run this text instead (metamorphic variants)
 	Plan        simio.ReadPlan `json:"plan"`
 	PlanClass   string         `json:"plan_class,omitempty"`
 }
@@ -74,6 +75,9 @@ func (Prop) Units(t string, seed uint64) int {
 // ---- the corrupted input and where the offending byte is ---------------------
 
 func (d *Data) corrupted() (text string, offending int, eof bool) {
+	if d.altText != nil {
+		return *d.altText, len(*d.altText), true
+	}
 	text, offending, eof = d.corrupted0()
 	if d.offOverride != nil {
 		offending, eof = *d.offOverride, d.eofOverride
@@ -403,10 +407,78 @@ func execData(d *Data) *kernel.Violation {
 	}
 	res, fname := d.run()
 	lastResult = res
-	return judge(d, res, fname)
+	if v := judge(d, res, fname); v != nil {
+		return v
+	}
+	return terminatorInvariance(d, res)
 }
 
 var lastResult result
+
+// parseReport extracts line number, excerpt and caret column from a diagnostic.
+func parseReport(stderr string) (line int, excerpt string, caretCol int, ok bool) {
+	lines := strings.Split(stderr, "\n")
+	h := -1
+	var hm []string
+	for i, l := range lines {
+		if m := headerRe.FindStringSubmatch(l); m != nil {
+			h, hm = i, m
+			break
+		}
+	}
+	if h < 0 {
+		return 0, "", 0, false
+	}
+	ci := -1
+	for i := h + 1; i < len(lines); i++ {
+		if caretRe.MatchString(lines[i]) {
+			ci = i
+			break
+		}
+	}
+	if ci < 0 || ci-1 == h {
+		return 0, "", 0, false
+	}
+	exLine := lines[ci-1]
+	line, gutter := 1, 4
+	if k := strings.LastIndexByte(hm[2], ':'); k >= 0 {
+		if n, err := strconv.Atoi(hm[2][k+1:]); err == nil {
+			g := "    " + strconv.Itoa(n) + " | "
+			if strings.HasPrefix(exLine, g) || exLine+" " == g {
+				line, gutter = n, len(g)
+			}
+		}
+	}
+	if len(exLine) >= gutter {
+		excerpt = exLine[gutter:]
+	}
+	return line, excerpt, strings.IndexByte(lines[ci], '^') - gutter, true
+}
+
+// terminatorInvariance: for an error at the end of an input that ends with a line terminator the
+// statement leaves open whether the terminated line or the empty one after it is named; whichever
+// it is, it must not depend on the kind of terminator (LF, CRLF and lone CR each end one line).
+// The same text with every terminator written as LF must yield the same line, excerpt and caret.
+func terminatorInvariance(d *Data, res result) *kernel.Violation {
+	text, off, eof := d.corrupted()
+	if !eof || off != len(text) || d.altText != nil || d.Format == "yaml" || d.Transport == "arg" || d.Transport == "argjson" || !strings.ContainsRune(text, '\r') {
+		return nil
+	}
+	if !strings.HasSuffix(text, "\n") && !strings.HasSuffix(text, "\r") {
+		return nil
+	}
+	alt := strings.ReplaceAll(strings.ReplaceAll(text, "\r\n", "\n"), "\r", "\n")
+	d2 := *d
+	d2.altText = &alt
+	d2.Plan = simio.ReadPlan{}
+	res2, _ := d2.run()
+	l1, e1, c1, ok1 := parseReport(res.stderr)
+	l2, e2, c2, ok2 := parseReport(res2.stderr)
+	if ok1 != ok2 || l1 != l2 || e1 != e2 || c1 != c2 {
+		return viol(d, "terminator-dependence", "the report for an error at the end of input depends on the kind of line terminator\nas given (CR/CRLF):  line %d excerpt %q caret column %d (diagnostic: %v)\nall terminators LF: line %d excerpt %q caret column %d (diagnostic: %v)\nstderr as given: %q\nstderr with LF:  %q", l1, e1, c1, ok1, l2, e2, c2, ok2, kernel.Short2(res.stderr, 300), kernel.Short2(res2.stderr, 300))
+	}
+	return nil
+}
 
 // execFromLibrary: consistency of the library's ParseError with the source, then the command's
 // report against the byte the library names.
